@@ -268,6 +268,24 @@ func C14_Recommit() {
 		vAssert(err == nil, "recommit:getimmutable")
 		vAuditReads(it, h.p, h.vers[v], "recommit:old")
 	}
+	// after an accepted re-commit the tree stands at that version: discarding (no) changes keeps
+	// it there, and when it was the latest the numbering simply continues
+	if identical {
+		vAssert(h.tree.Version() == target+1, "recommit:tree-version")
+		if vChoice("rollback", 2) == 1 {
+			h.tree.Rollback()
+			vAssert(h.tree.Version() == target+1, "recommit:version-after-rollback")
+			vAssert(h.tree.WorkingVersion() == target+2, "recommit:working-version-after-rollback")
+		}
+		vAuditReads(h.tree, h.p, h.vers[target+1], "recommit:after")
+		if target+1 == h.latest {
+			h.resetWorkToLatest()
+			h.doSet(vChoice("key2", h.p.n))
+			h.doCommit()
+			h.checkVersions("recommit:continued")
+			h.audit()
+		}
+	}
 }
 
 var _ = vReg("C14_LoadOutside", C14_LoadOutside)
